@@ -6,6 +6,8 @@ pub use tauri_typegen::models::TypeStructure;
 
 // ---------------------------------------------------------------- reporting protocol
 pub struct Report {
+    /// VERIF_TRACE=1: print every case before it is evaluated (used by ./check after the harness process died)
+    pub trace: bool,
     /// set when the harness found that it does not understand the shape of the generated text (its own parsers fail on a
     /// known-good probe): failures are then reported as UNDECIDED, never as violations
     pub downgrade: bool,
@@ -43,7 +45,7 @@ impl Report {
             (Ok(f), Ok(i)) => Some((f, i)),
             _ => None,
         };
-        Report { downgrade: false, undecided: Vec::new(), evals: 0, distinct: Default::default(), counts: HashMap::new(), fails: Vec::new(), replay }
+        Report { trace: std::env::var("VERIF_TRACE").is_ok(), downgrade: false, undecided: Vec::new(), evals: 0, distinct: Default::default(), counts: HashMap::new(), fails: Vec::new(), replay }
     }
     pub fn depth() -> usize {
         std::env::var("VERIF_DEPTH").ok().and_then(|s| s.parse().ok()).unwrap_or(4)
@@ -55,6 +57,12 @@ impl Report {
         }
         self.evals += 1;
         EVALS_SO_FAR.store(self.evals, std::sync::atomic::Ordering::Relaxed);
+        if self.trace {
+            // written before the call: if the process dies inside it (stack overflow, abort), the last line names the case
+            use std::io::Write;
+            println!("CASE fn={} input={:?}", check, input);
+            let _ = std::io::stdout().flush();
+        }
         *CURRENT_CASE.lock().unwrap_or_else(|e| e.into_inner()) = Some((check.to_string(), input.to_string(), std::time::Instant::now()));
         let res = catch_unwind(AssertUnwindSafe(|| f()));
         *CURRENT_CASE.lock().unwrap_or_else(|e| e.into_inner()) = None;
